@@ -85,6 +85,55 @@ def suite_phase(ids):
             shutil.rmtree(wt, ignore_errors=True)
 
 
+def suite_batch_phase(maxn=12):
+    """phase 2, batched: seeds whose suite result is pending are grouped by base commit; as many patches
+    as apply on top of each other (at most `maxn`) are applied to ONE worktree and the suite is run once.
+    A green run is recorded for every member as a batch result (each patch was also run ALONE by its
+    author, whose summary line is in the seed's README.md); a red batch is re-run seed by seed."""
+    sdir = os.path.join(HERE, "seeded")
+    pending = {}
+    for sid in sorted(os.listdir(sdir)):
+        mp = os.path.join(sdir, sid, "meta.json")
+        if os.path.exists(mp):
+            meta = json.load(open(mp))
+            if str(meta["confirmed"].get("existing_suite", "")).startswith("pending"):
+                pending.setdefault(meta["base_commit"], []).append(sid)
+    bn = 0
+    for base, ids in pending.items():
+        todo = list(ids)
+        while todo:
+            bn += 1
+            wt = f"/tmp/sc-batch{bn}"
+            sh(["git", "-C", "/repo", "worktree", "remove", "--force", wt])
+            shutil.rmtree(wt, ignore_errors=True)
+            sh(["git", "-C", "/repo", "worktree", "add", "--detach", wt, base])
+            shutil.copy("/repo/Cargo.lock", wt)
+            members, rest = [], []
+            for sid in todo:
+                pf = os.path.join(sdir, sid, "patch.diff")
+                if len(members) < maxn and sh(["git", "-C", wt, "apply", pf]).returncode == 0:
+                    members.append(sid)
+                else:
+                    rest.append(sid)
+            if not members:
+                print("cannot apply", todo, flush=True)
+                break
+            ok, summary = run_suite(wt)
+            print(f"batch {bn} base {base} {members}: {'OK' if ok else 'FAILS'} {summary}", flush=True)
+            sh(["git", "-C", "/repo", "worktree", "remove", "--force", wt])
+            shutil.rmtree(wt, ignore_errors=True)
+            if ok:
+                for sid in members:
+                    mp = os.path.join(sdir, sid, "meta.json")
+                    meta = json.load(open(mp))
+                    meta["confirmed"]["existing_suite"] = summary + f" (lead's run with this change applied together with {len(members) - 1} other seeded changes: {', '.join(m for m in members if m != sid)}; the author's run of this change alone is quoted in README.md)"
+                    meta["confirmed"]["existing_suite_passes"] = True
+                    json.dump(meta, open(mp, "w"), indent=1)
+            else:
+                suite_phase(members)
+            todo = rest
+
+
 def confirm(prop, n, outdir):
     sid = f"{prop}-{n}"
     patch = os.path.join(outdir, f"patch{n}.diff")
@@ -171,6 +220,8 @@ def main():
     args = sys.argv[1:]
     if args and args[0] == "--suite":
         return suite_phase(args[1:])
+    if args and args[0] == "--suite-batch":
+        return suite_batch_phase()
     if args and args[0] == "--no-suite":
         NO_SUITE = True
         args = args[1:]
